@@ -57,9 +57,13 @@ def run_case(case: dict) -> Result:
     if root is None:
         return Result(discard=True)
     classes = set()
+    if case.get('prime'):
+        from vf.props import c10
+        c10.prime(root)
+        classes.add('primed')
     for op in case['ops']:
-        if op.get('f') not in ('opt', 'req', 'val', 'list', 'view', 'map'):
-            continue
+        if op.get('f') not in ('opt', 'req', 'val', 'list', 'view', 'map') or op.get('op') == 'reverse':
+            continue  # reverse() re-orders children: not an add / remove / replace
         try:
             a = OPS.resolve(root, op)
         except OPS.NotApplicable:
@@ -213,10 +217,16 @@ def _build(tier: str):
     cfg = L.Cfg(max_dirs=4 if tier == 'quick' else 8)
 
     def build(rnd: Any) -> dict:
-        return OPS.build_program(rnd, cfg, FAMILIES, 5, common.parse_file)
+        from vf.props import c10
+        return OPS.build_program(rnd, cfg, FAMILIES, 6, common.parse_file, stick=0.7, prime=c10.prime)
     return build
 
 
 def jobs(tier: str) -> list[Job]:
+    from vf.props import c10
     return [Job('programs', 'hyp', lambda: _build(tier), 3000 if tier == 'quick' else 100000),
-            Job('list-sweep', 'enum', sweeps.list_sweep, exhaustive=True)]
+            # histories of several mutations through the aliasing views of one model (C10's generator), judged by this oracle:
+            # a stale view removes or replaces the wrong sibling
+            Job('aliasing-histories', 'hyp', lambda: c10._build(tier), 2000 if tier == 'quick' else 60000),
+            Job('list-sweep', 'enum', sweeps.list_sweep, exhaustive=True),
+            Job('slot-sweep', 'enum', sweeps.slot_sweep, exhaustive=True)]
